@@ -2,7 +2,7 @@
 import itertools
 import json
 
-from mc import core, pelgen, decode, impl
+from mc import subchunk, core, pelgen, decode, impl
 from mc.core import ChunkResult
 
 PROPERTY = 'C03'
@@ -95,6 +95,9 @@ def plan(tier, seed):
         for fl in FRU_FLAGSETS:
             for t in range(0, 16, 4):
                 ch.append({'k': 'single', 'fl': [fl], 'types': FRU_TYPES[t:t + 4], 'prios': PRIOS})
+    # the same decoders with assertions stripped (python -O): callouts with every substructure, flag sets, many callouts
+    ch += [{'k': 'seq', 'first': 0, 'optimize': True}, {'k': 'many', 'optimize': True}, {'k': 'single_tp', 'optimize': True},
+           {'k': 'words', 'optimize': True}]
     return ch
 
 
@@ -169,6 +172,9 @@ def _do(res, src, nontrivial=True, every=401, **kw):
 
 
 def run_chunk(chunk):
+    routed = subchunk.route(__name__, chunk)
+    if routed is not None:
+        return routed
     res = ChunkResult()
     k = chunk['k']
     if k == 'words':
